@@ -1,6 +1,8 @@
 package main
 
 import (
+	"path/filepath"
+	"os/exec"
 	"flag"
 	"fmt"
 	"os"
@@ -109,6 +111,11 @@ func main() {
 				fmt.Println("  SILENT:", x)
 			}
 		}
+	case "seed":
+		// govc seed <dir with patch.diff> <property> : verify the property's contracts against /repo + patch (in memory)
+		code := cmdSeed(os.Args[2:])
+		cleanupScratch()
+		os.Exit(code)
 	case "check":
 		code := cmdCheck(os.Args[2:])
 		cleanupScratch()
@@ -273,4 +280,98 @@ func cmdVerify(args []string) {
 		}
 	}
 	fmt.Printf("obligations: %d discharged, %d failed; functions %d, lemmas %d; wall %.1fs solver %.1fs\n", nOK, nFail, len(out.funcs), out.lemmas, out.wall, out.solverT)
+}
+
+
+// patchOverlay applies a unified diff to copies of the files it touches and returns them as a go/packages overlay
+// (the repository itself is not modified).
+func patchOverlay(patchFile string) (map[string][]byte, error) {
+	data, err := os.ReadFile(patchFile)
+	if err != nil {
+		return nil, err
+	}
+	tmp, err := os.MkdirTemp("", "govc-seed-")
+	if err != nil {
+		return nil, err
+	}
+	defer os.RemoveAll(tmp)
+	var files []string
+	for _, l := range strings.Split(string(data), "\n") {
+		for _, pre := range []string{"+++ b/", "--- a/"} {
+			if strings.HasPrefix(l, pre) {
+				f := strings.TrimSpace(strings.TrimPrefix(l, pre))
+				if i := strings.IndexByte(f, '\t'); i >= 0 {
+					f = f[:i]
+				}
+				files = append(files, f)
+			}
+		}
+	}
+	seen := map[string]bool{}
+	for _, f := range files {
+		if seen[f] {
+			continue
+		}
+		seen[f] = true
+		os.MkdirAll(filepath.Dir(filepath.Join(tmp, f)), 0o755)
+		if src, err := os.ReadFile(filepath.Join(repoDir, f)); err == nil {
+			os.WriteFile(filepath.Join(tmp, f), src, 0o644)
+		}
+	}
+	cmd := exec.Command("patch", "-p1", "-s", "-d", tmp, "-i", patchFile)
+	if out, err := cmd.CombinedOutput(); err != nil {
+		return nil, fmt.Errorf("patch failed: %v: %s", err, out)
+	}
+	ov := map[string][]byte{}
+	for f := range seen {
+		if b, err := os.ReadFile(filepath.Join(tmp, f)); err == nil {
+			ov[filepath.Join(repoDir, f)] = b
+		}
+	}
+	return ov, nil
+}
+
+func cmdSeed(args []string) int {
+	if len(args) < 2 {
+		fmt.Fprintln(os.Stderr, "usage: govc seed <dir> <property> [timeout]")
+		return 2
+	}
+	pf := args[0]
+	if st, err := os.Stat(pf); err == nil && st.IsDir() {
+		pf = filepath.Join(pf, "patch.diff")
+	}
+	pf, _ = filepath.Abs(pf)
+	ov, err := patchOverlay(pf)
+	if err != nil {
+		fmt.Println("ERROR:", err)
+		return 2
+	}
+	timeout := 10
+	if len(args) > 2 {
+		fmt.Sscanf(args[2], "%d", &timeout)
+	}
+	out, _, err := runVerify(args[1], "", timeout, ov)
+	if err != nil {
+		fmt.Println("DETECTED (load error):", err)
+		return 1
+	}
+	n := 0
+	for _, f := range out.funcs {
+		if f.EngineErr != "" {
+			n++
+			fmt.Printf("  FAIL %s: %s\n", f.Name, f.EngineErr)
+		}
+	}
+	for _, o := range out.obls {
+		if !o.Cover && o.Status != "discharged" {
+			n++
+			fmt.Printf("  FAIL %s [%s] %s\n", o.Name, o.Result.Status, o.Clause)
+		}
+	}
+	if n > 0 {
+		fmt.Printf("DETECTED %s by %s: %d failing obligations\n", filepath.Base(filepath.Dir(pf)), args[1], n)
+		return 1
+	}
+	fmt.Printf("SILENT %s under %s\n", filepath.Base(filepath.Dir(pf)), args[1])
+	return 0
 }
